@@ -362,6 +362,27 @@ Lemma has_subseq_former_witnesses :
 Proof. split; vm_compute; reflexivity. Qed.
 
 (* ================================================================== *)
+(* F. randint *)
+
+Definition int64 (z : Z) : Prop := - 2 ^ 63 <= z < 2 ^ 63.
+
+Lemma randint_small_no_panic low high :
+  int64 low -> int64 high -> is_panic (randint_small low high) = false.
+Proof.
+  unfold int64. intros Hl Hh. unfold randint_small, rand_intn, big_rand.
+  destruct (high <=? low) eqn:E; [reflexivity|].
+  destruct (wrap64 (high - low) <=? 0) eqn:Ew.
+  - destruct (high - low <=? 0) eqn:Ed; [lia|reflexivity].
+  - reflexivity.
+Qed.
+
+(* the overflowing range takes the exact path *)
+Lemma randint_small_overflow_example :
+  randint_small (-5000000000000000000) 5000000000000000000 = Ok tt
+  /\ wrap64 (5000000000000000000 - -5000000000000000000) < 0.
+Proof. split; vm_compute; reflexivity. Qed.
+
+(* ================================================================== *)
 (* the oracle *)
 
 Lemma check_C17_sound {A} (o : obs A) : check_C17 o = true -> o <> OCrash.
